@@ -1,7 +1,7 @@
 SPECIFICATION Spec
 CONSTANTS
-  Config = "t3x"
-  T = 3
+  Config = "render"
+  T = 2
   K = 1
   Thorough = TRUE
   RenderDepth = 6
@@ -30,4 +30,3 @@ PROPERTIES
   WritesOnlyUnderLock
 POSTCONDITION Emit
 CHECK_DEADLOCK TRUE
-VIEW View
